@@ -35,10 +35,6 @@ theorem candidates_complete (db : DB R) (q : Query) (c : Candidate) : IsCandidat
 /-- the combinations returned are distinct -/
 theorem candidates_nodup (db : DB R) (q : Query) : (candidates db q).Nodup := nodup_dedup _
 
-/-- the property is decidable for a given combination: by enumeration -/
-instance (db : DB R) (q : Query) (c : Candidate) : Decidable (IsCandidate db q c) :=
-  decidable_of_iff _ (mem_candidates db q c)
-
 /-- a combination that differs from every enumerated one in its allocations or mappings is not described by the
 request (the form in which the comparison with the real response is read) -/
 theorem not_candidate_of_not_enumerated (db : DB R) (q : Query) (c : Candidate) (h : c ∉ candidates db q) :
